@@ -1,16 +1,172 @@
-"""Reference semantics of PyTree[L(, struct)] checks over array leaves (sequential over leaves).
+"""Reference semantics of PyTree[L(, struct)] checks (docs/api/pytree.md + C08/C16).
 
-The tree *skeleton* is concrete (a selector); leaf shapes are symbolic.  `V.decide` forks the
-harness path where the path condition does not determine a leaf verdict.
+The tree *skeleton* is concrete (a selector); array-leaf shapes are symbolic.  `V.decide`
+forks the harness path where the path condition does not determine a leaf verdict.
+
+Leaf-type descriptors ("specs"):
+  ("arr", dims)            Float[ARR, dims]
+  ("py", "int"|"str")      a plain Python type
+  ("tup", [spec, ...])     tuple[spec, ...]  (fixed length)
+  ("union", [spec, ...])   typing.Union[...], members tried in declaration order
+  ("any",)                 typing.Any
+  ("tree", spec)           structure-less PyTree[spec] nested in the leaf type
 """
-import z3
+import collections
 
 from . import dims as D
 
+_PY = {"int": int, "str": str}
+
+Point = collections.namedtuple("Point", ["x", "y"])
+
+
+class Node:
+    """A custom registered PyTree node (registered by the check's worker setup)."""
+
+    def __init__(self, *children):
+        self.children = tuple(children)
+
+    def __repr__(self):
+        return f"Node{self.children!r}"
+
+
+def register_node():
+    import jax.tree_util as jtu
+    try:
+        jtu.register_pytree_node(Node, lambda n: (n.children, None), lambda aux, ch: Node(*ch))
+    except ValueError:
+        pass
+
+
+def to_ann(spec, ARR):
+    """Real annotation object for a spec."""
+    import typing
+    import jaxtyping as jt
+    k = spec[0]
+    if k == "arr":
+        return jt.Float[ARR, spec[1]]
+    if k == "py":
+        return _PY[spec[1]]
+    if k == "tup":
+        return tuple[tuple(to_ann(s, ARR) for s in spec[1])]
+    if k == "union":
+        return typing.Union[tuple(to_ann(s, ARR) for s in spec[1])]
+    if k == "any":
+        return typing.Any
+    if k == "tree":
+        return jt.PyTree[to_ann(spec[1], ARR)]
+    raise KeyError(k)
+
+
+def is_arr(x):
+    return hasattr(x, "shape") and hasattr(x, "dtype") and not isinstance(x, (int, str))
+
+
+def children(x):
+    """Children of a container node, or None when x is not a container (jax semantics)."""
+    if x is None:
+        return []
+    if isinstance(x, Node):
+        return list(x.children)
+    if isinstance(x, dict):
+        return [x[k] for k in sorted(x)]
+    if isinstance(x, (tuple, list)):
+        return list(x)
+    return None
+
+
+def flat_match(spec, x, ARR):
+    """Does x match the leaf type when only types (not shapes/dtypes/bindings) are looked at?"""
+    k = spec[0]
+    if k == "arr":
+        return isinstance(x, ARR)
+    if k == "py":
+        t = _PY[spec[1]]
+        return isinstance(x, t)
+    if k == "tup":
+        return isinstance(x, tuple) and len(x) == len(spec[1]) and all(
+            flat_match(s, c, ARR) for s, c in zip(spec[1], x))
+    if k == "union":
+        return any(flat_match(s, x, ARR) for s in spec[1])
+    if k == "any":
+        return False  # PyTree[Any]: nothing is a leaf during discovery, everything matches after
+    if k == "tree":
+        return all(flat_match(spec[1], l, ARR) for l in discover(spec[1], x, ARR))
+    raise KeyError(k)
+
+
+def discover(spec, x, ARR):
+    """Leaves of x for leaf type `spec`: a subtree matching the leaf type is a leaf; None and
+    empty containers contribute none; anything that is not a container is a leaf."""
+    if flat_match(spec, x, ARR):
+        return [x]
+    ch = children(x)
+    if ch is None:
+        return [x]
+    out = []
+    for c in ch:
+        out += discover(spec, c, ARR)
+    return out
+
+
+def full_match(V, spec, x, B, ARR, args=None, tp=None):
+    """Sequential semantics of checking one value against the leaf type from state B.
+    -> ('ACC'|'REJ'|'ERR', B_after)"""
+    k = spec[0]
+    if k == "arr":
+        if not isinstance(x, ARR):
+            return "REJ", B
+        sh = [s if not hasattr(s, "e") else s.e for s in x.shape]
+        st = D.step(D.parse_ref(spec[1]), sh, B, args, tp=tp)
+        if V.decide(st["strict"] == D.ACC):
+            return "ACC", st["B"]
+        if V.decide(st["strict"] == D.ERR):
+            return "ERR", B
+        return "REJ", B
+    if k == "py":
+        return ("ACC" if flat_match(spec, x, ARR) else "REJ"), B
+    if k == "any":
+        return "ACC", B
+    if k == "tup":
+        if not (isinstance(x, tuple) and len(x) == len(spec[1])):
+            return "REJ", B
+        cur = B
+        for s, c in zip(spec[1], x):
+            r, cur = full_match(V, s, c, cur, ARR, args, tp)
+            if r != "ACC":
+                # bindings made by earlier elements of a failing tuple are undone by the
+                # enclosing PyTree / union rollback
+                return r, B
+        return "ACC", cur
+    if k == "union":
+        for s in spec[1]:
+            r, B2 = full_match(V, s, x, B, ARR, args, tp)
+            if r == "ACC":
+                return "ACC", B2
+            if r == "ERR":
+                return "ERR", B
+        return "REJ", B
+    if k == "tree":
+        return tree_check(V, spec[1], x, None, B, ARR, args, tp_outer=tp)
+    raise KeyError(k)
+
+
+def tree_check(V, spec, tree, struct, B, ARR, args=None, tp_outer=None):
+    """isinstance(tree, PyTree[spec(, struct)]) from state B.  struct: None or an identifier
+    (structure binding itself is handled by the caller / C09)."""
+    if tree is None:
+        return "ACC", B
+    cur = B
+    for i, leaf in enumerate(discover(spec, tree, ARR)):
+        tp = (struct, i) if struct is not None else tp_outer
+        r, cur = full_match(V, spec, leaf, cur, ARR, args, tp)
+        if r != "ACC":
+            return r, B
+    return "ACC", cur
+
 
 def leaves_step(V, leaf_dims, leaf_shapes, struct, B, args=None):
-    """Check leaves in order against parsed `leaf_dims` sharing B.
-    Returns ('ACC'|'REJ'|'ERR', B_after) -- strict sequential semantics; B_after == B unless ACC."""
+    """Array leaves given directly as shapes (used by C12).  -> (verdict, B_after)"""
     cur = B
     for i, sh in enumerate(leaf_shapes):
         tp = (struct, i) if struct is not None else None
